@@ -291,6 +291,25 @@ def run(run):
         case = {'layout': {'single': True, 'zero_mode': layout['zero_mode'], 'units': 'full-65536'}, 'history': hist, 'front': 'direct', 'framing': None}
         ok = check_direct(run, dict(case, layout=layout))
         run.case(h64(repr(case)), True, sample=dict(case, history=hist[:3], verdict='agrees' if ok else 'differs'), sample_class='big')
+    # contexts that rely on the default blocks for some tables (ModbusSlaveContext() / only some tables passed)
+    for i in range(run.scale(10, 120)):
+        z = bool(i % 2)
+        defaulted = [t for t in SM.TABLES if (i >> SM.TABLES.index(t)) & 1] or list(SM.TABLES)
+        lay = {'alias': {}, 'defaulted': defaulted}
+        for t in SM.TABLES:
+            lay[t] = {'type': 'seq', 'start': 0, 'values': [0] * 65536} if t in defaulted else SM.block_spec(r, t in 'cd', small=True)
+        layout = {'single': True, 'zero_mode': z, 'units': {1: lay}}
+        hist = []
+        for _ in range(14):
+            a = r.choice([0, 1, 2, 7, 100])
+            m = gen.data_request(r, address_hint=a, maxq=3)
+            if m['fc'] == 23:
+                m['write_address'] = a
+            hist.append(m)
+        case = {'layout': {'single': True, 'zero_mode': z, 'units': 'defaulted tables %s' % ''.join(defaulted)}, 'history': hist, 'front': 'direct', 'framing': None}
+        ok = check_direct(run, dict(case, layout=layout))
+        run.count('defaulted_table_histories')
+        run.case(h64(repr(case)), True, sample=dict(case, history=hist[:3], verdict='agrees' if ok else 'differs'), sample_class='defaulted')
     fcs = [1, 2, 3, 4, 5, 6, 15, 16, 22, 23]
     run.floor('normal responses compared per function code (min)', min(run.counters.get('normal:fc%d' % f, 0) for f in fcs), 500 if run.shard is None else 30)
     run.floor('full store dumps compared', run.counters.get('full_dumps', 0), 1000 if run.shard is None else 60)
